@@ -1,6 +1,7 @@
 package main
 
 import (
+	"fmt"
 	"sort"
 
 	pgs "github.com/lyft/protoc-gen-star/v2"
@@ -86,6 +87,26 @@ func observeC04(r *astRun, reverse bool) c04Obs {
 		fi.Unused, d3 = r.fileSet(f.UnusedImports())
 		fi.Dup = d1 || d2 || d3
 		o.Files[i] = fi
+	}
+	// asked again after every file was asked: the answers must not have changed (an answer that does
+	// is flagged like a listing with repetitions - it is not a set of files any more)
+	for i, f := range files {
+		if f == nil {
+			continue
+		}
+		var imps []int
+		for _, d := range f.Imports() {
+			imps = append(imps, r.refOf(d).File)
+		}
+		t, d1 := r.fileSet(f.TransitiveImports())
+		dp, d2 := r.fileSet(f.Dependents())
+		u, d3 := r.fileSet(f.UnusedImports())
+		first := o.Files[i]
+		if d1 || d2 || d3 || fmt.Sprint(imps) != fmt.Sprint(first.Imports) || fmt.Sprint(t) != fmt.Sprint(first.Transitive) ||
+			fmt.Sprint(dp) != fmt.Sprint(first.Dependents) || fmt.Sprint(u) != fmt.Sprint(first.Unused) {
+			first.Dup = true
+			o.Files[i] = first
+		}
 	}
 	for _, en := range allEntities(r) {
 		switch en.kind {
